@@ -453,7 +453,8 @@ class RxBitstuffRemover(Elaboratable):
         drop_bit = Signal(1)
 
 
-        with m.FSM(domain="usb_io"):
+        # Held in reset outside packets; a packet starts with the SYNC's final '1' already counted (USB2 7.1.9).
+        with m.FSM(domain="usb_io", init="D1"):
 
             for i in range(6):
                 with m.State(f"D{i}"):
@@ -611,7 +612,7 @@ class RxPipeline(Elaboratable):
         # Bitstuff remover.
         #
         m.submodules.bitstuff = bitstuff = \
-            ResetInserter(~detect.o_pkt_active)(RxBitstuffRemover())
+            ResetInserter({"usb_io": ~detect.o_pkt_active})(RxBitstuffRemover())
         m.d.comb += [
             bitstuff.i_valid.eq(nrzi.o_valid),
             bitstuff.i_data.eq(nrzi.o_data),
